@@ -28,6 +28,9 @@ func ParseTextStream(scanner *bufio.Scanner) (*BulkElement, error) {
 				parts := strings.Split(text, ",")
 				for _, part := range parts {
 					parts2 := strings.Split(part, "=")
+					if len(parts2) != 2 {
+						return nil, errors.New("invalid header, expected key=value, got '" + part + "'")
+					}
 					switch parts2[0] {
 					case "ik":
 						if bulkElement.IdempotencyKey != "" {
